@@ -9,8 +9,27 @@ Oracle 2  evaluate round trip the way PPO does it: policy(td, env, actions=A, re
           return_sum_log_likelihood=False) reproduces per-step log-probs, reward and entropy (ratio exp(ll'-ll) == 1).
 Irrelevant-step flag: get_log_likelihood as a pure function, and end to end by injecting a [B,T] `mask` key into the
           reset td of fixed-length envs (every _step carries unknown keys through; verified here per case).
+
+Policies with their own decoding loop (no DecodingStrategy, no evaluate path) have dedicated sub-checks:
+`matnet_ffsp`  MultiStageFFSPPolicy.forward(td, env, phase, num_starts) on FFSPEnv(flatten_stages=False): the returned
+          (summed) log_likelihood == sum over the steps of the reference log-prob of the returned action
+          (vf/models/ffsp_ref.py: stage encoders once, the parent-class forward of the stage decoders per step, float64
+          log-softmax of the tanh-clipped scores over td["action_mask"], env.step with the returned actions); forward
+          hooks on the stage decoders show the per-step values the loop summed: each equals the reference, steps taken
+          after a row has finished (only the wait action is offered) contribute exactly 0, the returned action is the
+          choice of the decoder of the row's current stage; greedy == reference argmax at decisive steps; multi-start
+          decodes additionally against a reference on the start-major expanded batch (no regrouping; float64 slice);
+          reward == -makespan of the schedule the actions describe (FFSPOrderModel with the start's machine order +
+          vf.oracles.scheduling.judge_ffsp) == reward of the independently replayed final state.
+`mdam`    MDAMPolicy: the actions of every decoder path (get_reward spy) are inside the mask at every step, feasible for
+          the independent oracle, reward column j == objective of path j's actions == env.get_reward on the replayed
+          final state, returned actions == last path's, greedy == reference argmax at decisive steps, and per path
+          log_likelihood == summed reference log-probs (vf/models/mdam_ref.py).  The last assertion hits the root cause
+          of F40 (un-normalised scores are summed) on every path: see GATED_DEFECTS; behind it the value is still
+          asserted to be the sum of the scores of the taken actions (gather alignment).
 """
 import contextlib
+import fnmatch
 import math
 import os
 import signal
@@ -21,7 +40,8 @@ import torch
 from ..envs import SPECS, py_instance
 from ..models.decode import reference_logprobs, reference_ptrnet
 from ..play import judge_row, violated
-from ..policies import INFO, ZOO, build_policy, expand_starts, has_batchnorm, make_batch, small_cfg
+from ..policies import (INFO, MDAM_PATHS, NO_FORCED_START, ZOO, DeterministicMatNetInit, build_policy, expand_starts,
+                        has_batchnorm, make_batch, small_cfg)
 from ..runner import Sub
 
 PROPERTY = "C11"
@@ -33,7 +53,16 @@ RULE = (
     "return_sum on/off, return_entropy on/off, optional injected [B,T] step-relevance mask (tsp/atsp/pdp/smtwtp), "
     "float64 slice). Non-trivial = some row has >= 2 decoded steps with >= 2 feasible actions and, for "
     "variable-length envs with >= 2 rows, rows finish at different steps; distinct = case hash. "
-    "Decisive fraction (top-2 gap > 1e-4 among multi-choice steps) is reported as event counters."
+    "Decisive fraction (top-2 gap > 1e-4 among multi-choice steps) is reported as event counters. "
+    "Zoo entries am/mdcpdp (fixed length n+2*depots-1; depots 1-3, reward/problem/distance modes by variant; no forced-start "
+    "modes: its reset admits depot 0 only), am/dpp, am/mdpp (synthetic PDN data, chips 4x4/5x5/8x8, quota n-2). "
+    "matnet_ffsp: case = (jobs 2-5, stages 1-3, machines per stage 2-3, run times < 3/5/10, B 1-4, seeds, spread, greedy | "
+    "sampling taken from the <phase>_decode_type attribute of a drawn phase (the other phases carry the other type), "
+    "num_starts 1 | 2 | 3 | 6 (<= machines!), eval/train mode, temperature kwarg, float64 slice 1/4); non-trivial = some row "
+    "with >= 2 multi-choice steps and, with >= 2 rows, rows finishing at different steps (post-finish wait steps). "
+    "mdam: case = (tsp|cvrp|op|pctsp, n 4-8, B 1-4, seeds, spread 1-1.5, greedy | sampling given as kwarg or through the "
+    "phase attribute, capacity variant); non-trivial = some path with >= 2 multi-choice steps and (tsp or B=1 or rows "
+    "finishing at different steps)."
 )
 ASSUMPTIONS = [
     "policies are the bundled classes at toy size (embed 32, 2 encoder layers; POMO config 6), spread-initialised, dropout 0",
@@ -49,13 +78,38 @@ ASSUMPTIONS = [
     "(steps >= 1 against the multistart run, step 0 against the plain reference loop)",
     "PolyNet conditions on the start index: its multistart outputs are only checked against the reference loop, its "
     "multisample outputs are re-evaluated with the same num_starts / multisample kwargs",
-    "AM/mtsp at B=1 (F7, MTSPContext.squeeze) and AM/mtsp multistart (MTSPContext cannot take the [B,S] layout) crash: "
-    "excluded by construction and counted unless VF_C11_DEFECT_SLICES=1",
+    "AM/mtsp at B=1 (F7) and AM/mtsp multistart (F34) crashed; both are fixed and part of the asserted domain again",
+    "genuine-defect candidates not yet in known_findings.json are counted as excluded (GATED_DEFECTS) until an entry for "
+    "C11 matches their signature or VF_C11_DEFECT_SLICES=1: AM on dpp/mdpp in any [batch, starts] layout with "
+    "B != starts (crash|policy|am/dpp|multi*, crash|policy|am/mdpp|multi*: DPPContext ignores the layout of td); "
+    "MDAM's log-likelihood (ll_vs_reference|mdam/*: root cause of F40)",
+    "am/dpp, am/mdpp run on synthetic PDN matrices (vf/eda.py); their reward has no independent oracle here (C08 / C03): "
+    "only reward == env.get_reward on the replayed final state is asserted",
+    "matnet_ffsp: MatNetInitEmbedding(RandomOneHot) of every stage encoder replaced by DeterministicMatNetInit (DESIGN "
+    "2.5, asserted per case); the reference trusts the stage encoders, MatNetFFSPDecoder._precompute_cache, "
+    "AttentionModelDecoder.forward, env.reset / pre_step / step - not the policy loop, MultiStageFFSPDecoder.forward, "
+    "process_logits, decode_logprobs; start s of a multi-start decode sweeps the machines of every stage in the s-th "
+    "lexicographic permutation (IndexTables; documented POMO-style augmentation); >= 2 machines per stage and >= 2 "
+    "jobs (instance normalisation is undefined over a single element: torch raises ValueError)",
+    "matnet_ffsp tolerances: float32 1e-5*(1+|x|) per step, x steps for sums; float64 slice 1e-9 per step (hooks), "
+    "1e-6 x steps for the returned sum (the policy collects step values in a float32 buffer); the cross-layout "
+    "reference is only asserted in the float64 slice (instance norm over 2-3 elements amplifies float32 layout "
+    "rounding to 4e-3)",
+    "mdam: eval mode only (batch norm in the encoder); the reference trusts init embedding, encoder, "
+    "MDAMDecoder._precompute / _get_logprobs and env.step - not MDAMDecoder.forward, decode_logprobs, get_log_likelihood",
 ]
 TIME_CAP = {"quick": 400, "thorough": 3000}
 
 DEFECT_SLICES = os.environ.get("VF_C11_DEFECT_SLICES", "0") == "1"
-FIXED_LEN = ("tsp", "atsp", "pdp", "smtwtp")
+FIXED_LEN = ("tsp", "atsp", "pdp", "smtwtp", "mdcpdp", "dpp", "mdpp")
+# genuine-defect candidates awaiting registration in known_findings.json (signature pattern -> exclusion label): the
+# slice is counted as excluded until an entry of known_findings.json (any status) matches the signature for C11 or
+# VF_C11_DEFECT_SLICES=1; from then on the assertion is live (open entry: counted as known finding; fixed: asserted)
+GATED_DEFECTS = {
+    "crash|policy|am/dpp|multi*": "am_dpp_multi_layout_crash(defect candidate)",
+    "crash|policy|am/mdpp|multi*": "am_dpp_multi_layout_crash(defect candidate)",
+    "ll_vs_reference|mdam/*": "mdam_ll_unnormalised(F40 root cause, pattern not registered for C11)",
+}
 VARLEN = ("cvrp", "cvrptw", "sdvrp", "svrp", "op", "pctsp", "spctsp", "mtvrp", "jssp", "fjsp")
 NO_F64 = ("l2d", "mvmoe", "ptrnet")  # hard-coded float32 tensors inside (float64 inputs are not a documented use)
 NORM_KEYS = ("am", "symnco", "ham")
@@ -74,6 +128,8 @@ def cases(draw, tier="quick"):
         modes += ["multistart_greedy", "multistart_sampling", "multistart_sampling", "multisample"]
         if key == "polynet":
             modes += ["multisample"]
+    if envn in NO_FORCED_START:
+        modes = [m for m in modes if not m.startswith("multistart")]
     mode = draw(st.sampled_from(modes))
     kmax = n // 2 if envn == "pdp" else n
     k = draw(st.integers(2, max(2, min(kmax, 4)))) if mode.startswith("multi") else 0
@@ -111,7 +167,38 @@ def env_cfg(envn, n, variant):
         cfg["capacity"] = [None, None, 10.0, 20.0][v]
     elif envn == "atsp":
         cfg["tmat"] = v != 1
+    elif envn == "mdcpdp":
+        cfg.update([dict(), dict(reward_mode="lateness", problem_mode="open"), dict(depots=3, reward_mode="minsum", dist_mode="L1"),
+                    dict(depots=1, reward_mode="lateness", lw=1.0, max_cap=3)][v])
+    elif envn == "mdpp":
+        cfg["reward_type"] = "meansum" if v == 1 else "minmax"
+    elif envn == "ffsp":
+        cfg.update([dict(), dict(stages=1, mas=2), dict(stages=3, mas=2), dict(stages=2, mas=3)][v])
     return cfg
+
+
+def fixed_len(envn, cfg):
+    """Episode length of the fixed-length envs (every row of every batch takes exactly this many steps)."""
+    if envn == "mdcpdp":
+        return cfg["n"] + 2 * cfg["depots"] - 1
+    if envn in ("dpp", "mdpp"):
+        return cfg["k"]
+    return cfg["n"] + (1 if (envn == "pdp" and cfg["force_start"]) else 0)
+
+
+def gated(ctx, sig):
+    """-> exclusion label if `sig` belongs to a defect candidate that is not registered (see GATED_DEFECTS), else None."""
+    for pat, label in GATED_DEFECTS.items():
+        if fnmatch.fnmatchcase(sig, pat):
+            if DEFECT_SLICES:
+                return None
+            for e in ctx.known.entries:
+                props = e["property"] if isinstance(e["property"], list) else [e["property"]]
+                pats = e["signature"] if isinstance(e["signature"], list) else [e["signature"]]
+                if PROPERTY in props and any(fnmatch.fnmatchcase(sig, q) for q in pats):
+                    return None
+            return label
+    return None
 
 
 def minimize(case):
@@ -226,7 +313,7 @@ def execute(case, ctx):
     # step-relevance mask injected into the reset td (fixed-length envs)
     stepmask = None
     if case.get("stepmask") is not None and envn in FIXED_LEN:
-        Tfix = cfg["n"] + (1 if (envn == "pdp" and cfg["force_start"]) else 0)
+        Tfix = fixed_len(envn, cfg)
         bits = case["stepmask"]
         stepmask = torch.tensor([[bits[(b * Tfix + t) % len(bits)] for t in range(Tfix)] for b in range(B)],
                                 dtype=torch.bool)
@@ -255,6 +342,14 @@ def execute(case, ctx):
             if case["select_best"]:
                 kw.update(select_best=True)
     select_best = multistart and bool(case["select_best"])
+
+    if envn in ("dpp", "mdpp") and (multistart or multisample) and B != k:
+        # AM on DPP/MDPP: DPPContext returns a [B, embed] context whatever the layout of td, so every decode in the
+        # [B, starts] layout (multistart / multisample / beam search) raises a broadcast error unless B == starts
+        lab = gated(ctx, f"crash|policy|{slice_}|RuntimeError|*")
+        if lab is not None:
+            ctx.exclude(lab)
+            return
 
     kw["max_steps"] = 6 * case["n"] + 24  # documented safety valve of forward(); far above any episode length here
     policy.train(train)
@@ -488,6 +583,386 @@ def execute_ptrnet(case, ctx, env, inst, td0, policy, cfg):
     ctx.nontriv()
 
 
+# --------------------------------------------------------------------------- MultiStageFFSPPolicy (own loop)
+# >= 2 machines per stage and >= 2 jobs: the MatNet encoders use instance normalisation over the machine / job axis,
+# which torch defines only for more than one element
+FFSP_KS = {2: [1, 2, 2], 3: [1, 2, 3, 6]}
+
+
+@st.composite
+def ffsp_cases(draw, tier="quick"):
+    mas = draw(st.sampled_from([2, 2, 3]))
+    phase = draw(st.sampled_from(["test", "test", "train", "val"]))
+    return dict(
+        jobs=draw(st.integers(2, 5)), stages=draw(st.sampled_from([1, 2, 2, 3])), mas=mas,
+        max_time=draw(st.sampled_from([3, 5, 5, 10])), B=draw(st.integers(1, 4)), iseed=draw(st.integers(0, 2 ** 20)),
+        pseed=draw(st.integers(0, 3)), spread=draw(st.sampled_from([1.25, 1.5, 1.5, 2.0, 2.5])),
+        mode=draw(st.sampled_from(["greedy", "sampling", "sampling"])), tseed=draw(st.integers(0, 2 ** 20)),
+        k=draw(st.sampled_from(FFSP_KS[mas])), phase=phase, train=draw(st.booleans()),
+        temperature=draw(st.sampled_from([None, None, 1.0, 0.5, 2.0])),
+        f64=draw(st.integers(0, 3)) == 0,
+    )
+
+
+def ffsp_minimize(case):
+    c = dict(case)
+    if c["B"] > 1:
+        yield {**c, "B": c["B"] - 1}
+        yield {**c, "B": 1}
+    if c["k"] > 1:
+        yield {**c, "k": 1}
+    for key, lo in (("jobs", 2), ("stages", 1)):
+        if c[key] > lo:
+            yield {**c, key: c[key] - 1}
+    if c["mas"] > 2 and c["k"] <= math.factorial(c["mas"] - 1):
+        yield {**c, "mas": c["mas"] - 1}
+    for key, val in (("f64", False), ("train", False), ("phase", "test"), ("temperature", None), ("max_time", 3),
+                     ("spread", 1.5), ("pseed", 0), ("mode", "greedy")):
+        if c.get(key) != val:
+            yield {**c, key: val}
+
+
+def execute_ffsp(case, ctx):
+    """MultiStageFFSPPolicy.forward(td, env, phase, num_starts): returned log_likelihood == sum over the steps of the
+    reference log-prob of the returned action (vf/models/ffsp_ref.py), finished rows contribute exactly 0, actions
+    inside the mask, reward == -makespan of the schedule the actions describe (independent model + judge)."""
+    from ..models.ffsp_ref import FFSPOrderModel, reference_ffsp, start_order
+    from ..oracles.scheduling import judge_ffsp
+
+    J, S, M, B, k = int(case["jobs"]), int(case["stages"]), int(case["mas"]), int(case["B"]), int(case["k"])
+    mode, phase = case["mode"], case["phase"]
+    slice_ = f"matnet_ffsp|{mode}|k={'1' if k == 1 else '2+'}"
+    ctx.event(f"zoo:matnet_ffsp/ffsp|{mode}")
+    ctx.event(f"ffsp:S{S}M{M}")
+    ctx.event(f"ffsp:num_starts={k}")
+    ctx.event(f"ffsp:phase={phase}")
+    cfg = {"jobs": J, "stages": S, "mas": M, "max_time": int(case["max_time"]), "flatten": False}
+    spec = SPECS["ffsp"]
+    env = spec.env(cfg)
+    state = torch.get_rng_state()
+    inst = spec.gen(cfg, B, case["iseed"])
+    torch.set_rng_state(state)
+    f64 = bool(case.get("f64", False))
+    if f64:
+        ctx.event("float64")
+    policy = build_policy("matnet_ffsp", "ffsp", env, seed=case["pseed"], spread=case["spread"], double=f64)
+    assert all(isinstance(e.init_embedding, DeterministicMatNetInit) for e in policy.encoders)
+    other = "sampling" if mode == "greedy" else "greedy"
+    saved = {ph: getattr(policy, f"{ph}_decode_type") for ph in ("train", "val", "test")}
+    for ph in saved:  # only the attribute of the requested phase carries the drawn decode type
+        setattr(policy, f"{ph}_decode_type", mode if ph == phase else other)
+    train = bool(case["train"]) and not has_batchnorm(policy)
+    ctx.event("train_mode" if train else "eval_mode")
+    Tm = case["temperature"]
+    dkw = {} if Tm is None else {"temperature": float(Tm)}
+
+    calls = []  # (stage, action [R], logp [R]) per stage-decoder call
+    hooks = [dec.register_forward_hook(lambda m, a, out, s=s: calls.append((s, out[0].detach().clone(), out[1].detach().clone())))
+             for s, dec in enumerate(policy.decoders)]
+    policy.train(train)
+    try:
+        with watchdog():
+            td0 = ctx.guard(env.reset, inst.clone(), what="reset|ffsp")
+            torch.manual_seed(case["tseed"])
+            with torch.no_grad():
+                out = ctx.guard(policy, td0, env, phase=phase, num_starts=k, what=f"policy|{slice_}", **dkw)
+            for h in hooks:
+                h.remove()
+            hooks = []
+            _check_ffsp(case, ctx, cfg, env, inst, policy, out, calls, slice_, 1.0 if Tm is None else float(Tm),
+                        FFSPOrderModel, reference_ffsp, start_order, judge_ffsp)
+    except Hang:
+        ctx.violation(f"hang|{slice_}", f"policy call / replay did not return within {HANG_S}s at toy size")
+    finally:
+        for h in hooks:
+            h.remove()
+        policy.eval()
+        for ph, v in saved.items():
+            setattr(policy, f"{ph}_decode_type", v)
+
+
+def _check_ffsp(case, ctx, cfg, env, inst, policy, out, calls, slice_, Tm, FFSPOrderModel, reference_ffsp, start_order,
+                judge_ffsp):
+    J, S, M, B, k = int(case["jobs"]), int(case["stages"]), int(case["mas"]), int(case["B"]), int(case["k"])
+    mode = case["mode"]
+    R = B * k
+    A, ll, rew = out["actions"], out["log_likelihood"], out["reward"]
+    ctx.check(A.dim() == 2 and A.shape[0] == R and tuple(ll.shape) == (R,) and tuple(rew.shape) == (R,), f"shape|{slice_}",
+              f"actions {tuple(A.shape)} ll {tuple(ll.shape)} reward {tuple(rew.shape)} for B={B}, num_starts={k}")
+    T = A.shape[1]
+    # float64 slice: the policy computes in float64 but collects the step log-probs in a float32 buffer, so the returned
+    # sum carries float32 rounding of every step value (1e-6); the step values seen by the hooks are float64 (1e-9)
+    f64 = bool(case.get("f64", False))
+    tol, eps = (1e-9, 2.0 ** -52) if f64 else (1e-5, 2.0 ** -23)
+    tol_sum = 1e-6 if f64 else 1e-5
+
+    # ---- reference replay in the policy's own batch layout
+    ref = ctx.guard(reference_ffsp, policy, env, inst, A, num_starts=k, temperature=Tm, what=f"reference_loop|{slice_}")
+    ctx.check(bool(ref.in_mask.all()), f"action_outside_mask|{slice_}", "a returned action was not in the action mask",
+              {"actions": A, "in_mask": ref.in_mask})
+    ctx.check(ref.mask_ok, f"decoder_mask_mismatch|{slice_}", "decoder-returned mask differs from td['action_mask']")
+    ctx.check(ref.all_done_at == T, f"episode_length|{slice_}",
+              f"returned {T} steps but replaying them finishes every row after {ref.all_done_at}")
+    steps = torch.arange(T).view(1, T)
+    fin = steps >= ref.done_at.view(R, 1)  # [R,T] step taken after the row had finished
+    # finished rows are only offered the wait action: the reference log-prob is exactly 0 there
+    ctx.check(bool((ref.nfeas[fin] == 1).all()) and bool((A[fin] == J).all()) and bool((ref.logp[fin] == 0).all()),
+              f"finished_row_choice|{slice_}", "a finished row was offered / took something else than the wait action",
+              {"actions": A, "done_at": ref.done_at, "nfeas": ref.nfeas})
+    want = ref.logp.sum(1)
+    sl1 = (8 * eps * ref.scale).sum(1)
+    if not _close(ll, want, tol_sum, max(1, T), sl1):
+        ctx.violation(f"ll_vs_reference|{slice_}|sum",
+                      f"returned log-likelihood differs from the summed reference log-probs of the returned actions by "
+                      f"{_maxdiff(ll, want):.3e}", {"ll": ll, "reference": ref.logp, "actions": A})
+
+    # ---- what the stage decoders handed to the policy loop, step by step (forward hooks)
+    if len(calls) != T * S or any(c[0] != i % S for i, c in enumerate(calls)):
+        raise RuntimeError(f"hook channel broken: {len(calls)} stage-decoder calls for T={T}, S={S}")
+    stage = ref.stage  # td["stage_idx"] of the replayed episode: the decoder whose choice the policy loop must take
+    models = []
+    for r in range(R):
+        I = py_instance("ffsp", inst[r % B])
+        mdl = FFSPOrderModel(I, S, M, start_order(M, r // B))
+        ok_mask = True
+        for t in range(T):
+            a = int(A[r, t])
+            if not mdl.done and not (0 <= a <= J and mdl.mask()[a]):
+                ok_mask = False
+            mdl.step(a)
+        models.append((I, mdl, ok_mask))
+    h_act = torch.stack([torch.stack([calls[t * S + s][1] for s in range(S)], 1) for t in range(T)], 1)  # [R,T,S]
+    h_lp = torch.stack([torch.stack([calls[t * S + s][2] for s in range(S)], 1) for t in range(T)], 1)
+    g_act = h_act.gather(2, stage.unsqueeze(-1)).squeeze(-1)
+    g_lp = h_lp.gather(2, stage.unsqueeze(-1)).squeeze(-1).double()
+    ctx.check(torch.equal(g_act, A), f"actions_vs_stage_decoder|{slice_}",
+              "a returned action is not the one the decoder of the row's current stage selected", {"actions": A, "stage": stage})
+    if not _close(g_lp, ref.logp, tol, 1.0, 8 * eps * ref.scale):
+        ctx.violation(f"ll_vs_reference|{slice_}|steps",
+                      f"per-step log-probs of the stage decoders differ from the reference by {_maxdiff(g_lp, ref.logp):.3e}",
+                      {"steps": g_lp, "reference": ref.logp, "actions": A})
+    ctx.check(bool((g_lp[fin] == 0).all()), f"finished_row_nonzero|{slice_}",
+              "a step taken after the row had finished contributes a non-zero log-prob", {"steps": g_lp, "done_at": ref.done_at})
+    ctx.check(_close(ll, g_lp.sum(1), tol_sum, max(1, T)), f"ll_vs_step_sum|{slice_}",
+              f"returned log-likelihood is not the sum of the per-step log-probs ({_maxdiff(ll, g_lp.sum(1)):.3e})")
+
+    # ---- greedy: the reference argmax wherever it is decisive
+    multi = ref.nfeas >= 2
+    dec_ = ref.decisive() & multi
+    if mode == "greedy":
+        bad = dec_ & (A != ref.argmax)
+        ctx.check(not bool(bad.any()), f"greedy_not_argmax|{slice_}",
+                  "greedy decoding took another action than the most probable one at a decisive step (gap > 1e-4)",
+                  {"actions": A, "argmax": ref.argmax, "gap": ref.gap})
+
+    # ---- cross-layout reference for multi-start decodes: encoders on all num_starts*B rows, no regrouping
+    # (float64 slice only: instance normalisation over 2-3 machines / jobs amplifies the float32 rounding differences
+    #  between batch layouts up to 4e-3 on the summed log-likelihood, measured in C14; in float64 they vanish)
+    if k > 1 and f64:
+        ref2 = ctx.guard(reference_ffsp, policy, env, inst, A, num_starts=k, layout="plain", temperature=Tm,
+                         what=f"reference_loop_plain|{slice_}")
+        ctx.event("ffsp:cross_layout_reference")
+        if not _close(ll, ref2.logp.sum(1), tol_sum, max(1, T), (32 * eps * ref2.scale).sum(1)):
+            ctx.violation(f"ll_vs_plain_layout|{slice_}",
+                          f"multi-start log-likelihood differs from the reference on the start-major expanded batch by "
+                          f"{_maxdiff(ll, ref2.logp.sum(1)):.3e}", {"ll": ll, "reference": ref2.logp.sum(1), "actions": A})
+
+    # ---- reward: -makespan of the schedule the actions describe (independent model + judge), env's own final state
+    r_env = ref.td["reward"].reshape(-1)
+    ctx.check(_close(rew, r_env, 1e-6), f"reward_vs_replayed_state|{slice_}",
+              f"returned reward differs from the reward of the independently replayed final state by {_maxdiff(rew, r_env):.3e}")
+    waits = 0
+    for r, (I, mdl, ok_mask) in enumerate(models):
+        det = {"row": r, "actions": A[r].tolist(), "instance": I, "machine_order": list(mdl.order)}
+        ctx.check(ok_mask, f"action_infeasible|{slice_}", "a returned action is not admitted by the reference decision process", det)
+        ctx.check(mdl.done, f"schedule_incomplete|{slice_}", "the returned actions do not schedule every job on every stage", det)
+        v = judge_ffsp(I, {"schedule": mdl.start}, S, M)
+        if v.viol:
+            ctx.violation(f"schedule_invalid|{slice_}|{v.viol[0][0]}", f"the actions describe an invalid schedule: {v.viol}", det)
+        if abs(float(rew[r]) - v.obj) > 1e-5 * (1 + v.terms):
+            ctx.violation(f"reward_vs_makespan|{slice_}", f"reward {float(rew[r])} != -makespan {v.obj} (row {r})", det)
+        waits += mdl.waits
+
+    # ---- coverage bookkeeping
+    n_multi = int(multi.sum())
+    ctx.event("steps_multi_choice", n_multi)
+    ctx.event("steps_decisive", int(dec_.sum()))
+    ctx.event("steps_after_finish", int(fin.sum()))
+    if waits:
+        ctx.event("ffsp:episodes_with_waits")
+    differ = bool(ref.done_at.min() != ref.done_at.max())
+    if differ:
+        ctx.event("rows_finish_at_different_steps")
+    if bool((multi.sum(1) >= 2).any()) and (R < 2 or differ):
+        ctx.nontriv()
+    ctx.sample({"zoo": ["matnet_ffsp", "ffsp"], "cfg": cfg, "mode": mode, "k": k, "B": B, "T": T,
+                "actions_row0": A[0].tolist(), "ll_row0": float(ll[0]), "reward_row0": float(rew[0])})
+
+
+# --------------------------------------------------------------------------- MDAM (own multi-decoder loop)
+MDAM_ENVS = ("tsp", "cvrp", "op", "pctsp")
+
+
+class RewardSpy:
+    """Delegates everything to the real env and records every get_reward call (DESIGN 2.5)."""
+
+    def __init__(self, env):
+        object.__setattr__(self, "_env", env)
+        self.rewards = []
+
+    def __getattr__(self, k_):
+        return getattr(object.__getattribute__(self, "_env"), k_)
+
+    def get_reward(self, td, actions):
+        r = self._env.get_reward(td, actions)
+        self.rewards.append((actions.detach().clone(), r.detach().clone()))
+        return r
+
+
+@st.composite
+def mdam_cases(draw, tier="quick"):
+    return dict(
+        env=draw(st.sampled_from(MDAM_ENVS)), n=draw(st.integers(4, 8)), B=draw(st.integers(1, 4)),
+        iseed=draw(st.integers(0, 2 ** 20)), pseed=draw(st.integers(0, 3)),
+        spread=draw(st.sampled_from([1.0, 1.25, 1.5])),  # its tanh-clipped scores saturate from spread 2 on (C14)
+        mode=draw(st.sampled_from(["greedy", "sampling", "sampling"])), tseed=draw(st.integers(0, 2 ** 20)),
+        via=draw(st.sampled_from(["kwarg", "kwarg", "phase"])), phase=draw(st.sampled_from(["train", "val", "test"])),
+        variant=draw(st.integers(0, 3)),
+    )
+
+
+def mdam_minimize(case):
+    c = dict(case)
+    if c["B"] > 1:
+        yield {**c, "B": c["B"] - 1}
+        yield {**c, "B": 1}
+    if c["n"] > 4:
+        yield {**c, "n": c["n"] - 1}
+    for key, val in (("via", "kwarg"), ("phase", "test"), ("variant", 0), ("spread", 1.5), ("pseed", 0), ("mode", "greedy")):
+        if c.get(key) != val:
+            yield {**c, key: val}
+
+
+def execute_mdam(case, ctx):
+    """MDAMPolicy: every decoder path's actions inside the mask / feasible by the independent oracle, one reward per
+    path == objective of that path's actions, returned actions == last path's, per-path log-likelihood against the
+    reference loop (vf/models/mdam_ref.py)."""
+    from ..models.mdam_ref import reference_mdam
+
+    envn, B, mode = case["env"], int(case["B"]), case["mode"]
+    slice_ = f"mdam/{envn}|{mode}"
+    ctx.event(f"zoo:mdam/{envn}|{mode}")
+    cfg = env_cfg(envn, case["n"], case["variant"])
+    env, inst, td0 = make_batch(envn, cfg, B, case["iseed"])
+    policy = build_policy("mdam", envn, env, seed=case["pseed"], spread=case["spread"])
+    policy.eval()  # batch norm in the encoder: eval mode only
+    K = MDAM_PATHS
+    kw = {}
+    saved = {ph: getattr(policy, f"{ph}_decode_type") for ph in ("train", "val", "test")}
+    if case["via"] == "kwarg":
+        kw["decode_type"] = mode
+    else:
+        other = "sampling" if mode == "greedy" else "greedy"
+        for ph in saved:
+            setattr(policy, f"{ph}_decode_type", mode if ph == case["phase"] else other)
+    ctx.event(f"mdam:decode_type_via_{case['via']}")
+    spy = RewardSpy(env)
+    try:
+        with watchdog():
+            torch.manual_seed(case["tseed"])
+            with torch.no_grad():
+                out = ctx.guard(policy, td0.clone(), spy, phase=case["phase"], what=f"policy|{slice_}", **kw)
+            _check_mdam(case, ctx, cfg, env, inst, td0, policy, out, spy, slice_, K, reference_mdam)
+    except Hang:
+        ctx.violation(f"hang|{slice_}", f"policy call / replay did not return within {HANG_S}s at toy size")
+    finally:
+        policy.eval()
+        for ph, v in saved.items():
+            setattr(policy, f"{ph}_decode_type", v)
+
+
+def _check_mdam(case, ctx, cfg, env, inst, td0, policy, out, spy, slice_, K, reference_mdam):
+    envn, B, mode = case["env"], int(case["B"]), case["mode"]
+    A_ret, ll, rew = out["actions"], out["log_likelihood"], out["reward"]
+    ctx.check(A_ret.dim() == 2 and A_ret.shape[0] == B and tuple(ll.shape) == (B, K) and tuple(rew.shape) == (B, K),
+              f"shape|{slice_}", f"actions {tuple(A_ret.shape)} ll {tuple(ll.shape)} reward {tuple(rew.shape)} for B={B}, {K} paths")
+    if len(spy.rewards) != K or any(a.shape[0] != B for a, _ in spy.rewards):
+        raise RuntimeError(f"spy channel broken: {len(spy.rewards)} get_reward calls for {K} paths")
+    paths = [a.long() for a, _ in spy.rewards]
+    ctx.check(torch.equal(paths[-1], A_ret.long()), f"mdam_actions_not_last_path|{slice_}",
+              "returned actions are not those of the last decoder path")
+    for j in range(K):
+        ctx.check(_close(spy.rewards[j][1].reshape(-1), rew[:, j], 1e-6), f"reward_path_order|{slice_}",
+                  f"reward column {j} is not the reward computed for decoder path {j}")
+    refs = ctx.guard(reference_mdam, policy, env, td0, paths, what=f"reference_loop|{slice_}")
+    spec = SPECS[envn]
+    jcase = {"env": envn, "cfg": cfg, "src": "gen"}
+    tol, eps = 1e-5, 2.0 ** -23
+    nontriv = False
+    for j, (A, ref) in enumerate(zip(paths, refs)):
+        T = A.shape[1]
+        ctx.check(bool(ref.in_mask.all()), f"action_outside_mask|{slice_}", f"path {j}: an action was not in the action mask",
+                  {"path": j, "actions": A, "in_mask": ref.in_mask})
+        ctx.check(ref.mask_ok, f"decoder_mask_mismatch|{slice_}", "decoder-returned mask differs from td['action_mask']")
+        ctx.check(ref.all_done_at == T, f"episode_length|{slice_}",
+                  f"path {j}: {T} steps but replaying them finishes every row after {ref.all_done_at}")
+        # reward of the path: independent objective of its actions, env.get_reward on the replayed final state
+        r2 = ctx.guard(env.get_reward, ref.td.clone(), A.clone(), what=f"get_reward|{envn}").reshape(-1)
+        ctx.check(_close(rew[:, j], r2, 1e-6), f"reward_vs_get_reward|{slice_}",
+                  f"path {j}: returned reward differs from env.get_reward(final td, actions) by {_maxdiff(rew[:, j], r2):.3e}")
+        for b in range(B):
+            row = py_instance(envn, inst[b])
+            acts = A[b].tolist()
+            v = judge_row(jcase, spec, row, acts)
+            bad = violated(jcase, v, padded=True)
+            if bad:
+                ctx.violation(f"infeasible_path|{slice_}|{bad[0][0]}", f"path {j}, row {b} violates {bad}: {acts}",
+                              {"path": j, "row": b, "actions": acts, "instance": row})
+            if abs(float(rew[b, j]) - v.obj) > 1e-5 * (1 + abs(v.terms)):
+                ctx.violation(f"reward_vs_objective|mdam/{envn}", f"path {j}: reward {float(rew[b, j])} != objective {v.obj} (row {b})",
+                              {"path": j, "row": b, "actions": acts, "instance": row})
+        # greedy: the reference argmax wherever it is decisive (own loop, own call of decode_logprobs)
+        multi = ref.nfeas >= 2
+        dec_ = ref.decisive() & multi
+        if mode == "greedy":
+            ctx.check(not bool((dec_ & (A != ref.argmax)).any()), f"greedy_not_argmax|{slice_}",
+                      f"path {j}: greedy decoding took another action than the most probable one at a decisive step "
+                      f"(gap > 1e-4)", {"path": j, "actions": A, "argmax": ref.argmax, "gap": ref.gap})
+        # log-likelihood of the path: sum of the reference (masked, normalised) log-probs of its actions
+        want = ref.logp.sum(1)
+        sl1 = (8 * eps * ref.scale).sum(1)
+        if not _close(ll[:, j], want, tol, max(1, T), sl1):
+            sig = f"ll_vs_reference|{slice_}"
+            lab = gated(ctx, sig)
+            if lab is not None:
+                ctx.exclude(lab)
+            else:
+                ctx.violation(sig, f"path {j}: returned log-likelihood differs from the summed reference log-probs of the path's "
+                                   f"actions by {_maxdiff(ll[:, j], want):.3e}", {"path": j, "ll": ll[:, j], "reference": want,
+                                                                                 "actions": A})
+            # behind the known root cause (the softmax normaliser is missing, F40): the value must still be gathered
+            # from the scores of the taken actions, step by step
+            raw = ref.raw.sum(1)
+            if not _close(ll[:, j], raw, tol, max(1, T), sl1):
+                ctx.violation(f"ll_gather|{slice_}", f"path {j}: returned log-likelihood is neither the normalised nor the "
+                              f"un-normalised sum of the scores of the taken actions (off by {_maxdiff(ll[:, j], raw):.3e})",
+                              {"path": j, "ll": ll[:, j], "unnormalised": raw, "normalised": want, "actions": A})
+            ctx.event("mdam:ll_unnormalised_sum_confirmed")
+        ctx.event("steps_multi_choice", int(multi.sum()))
+        ctx.event("steps_decisive", int(dec_.sum()))
+        differ = bool(ref.done_at.min() != ref.done_at.max())
+        if differ:
+            ctx.event("rows_finish_at_different_steps")
+        if bool((multi.sum(1) >= 2).any()) and (envn == "tsp" or B < 2 or differ):
+            nontriv = True
+    if len({tuple(p.reshape(-1).tolist()) for p in paths}) > 1:
+        ctx.event("mdam:paths_differ")
+    if nontriv:
+        ctx.nontriv()
+    ctx.sample({"zoo": ["mdam", envn], "mode": mode, "B": B, "n": case["n"], "paths_row0": [p[0].tolist() for p in paths],
+                "ll_row0": ll[0].tolist(), "reward_row0": rew[0].tolist()})
+
+
 # --------------------------------------------------------------------------- get_log_likelihood as a pure function
 @st.composite
 def gll_cases(draw, tier="quick"):
@@ -561,6 +1036,10 @@ def execute_gll(case, ctx):
 SUBS = [
     Sub("policies", execute, strategy=lambda tier: cases(tier), budget={"quick": 1600, "thorough": 12000}, shards=16,
         shrink=False, minimize=minimize, weight=2.0),
+    Sub("matnet_ffsp", execute_ffsp, strategy=lambda tier: ffsp_cases(tier), budget={"quick": 160, "thorough": 3000},
+        shards=16, shrink=False, minimize=ffsp_minimize),
+    Sub("mdam", execute_mdam, strategy=lambda tier: mdam_cases(tier), budget={"quick": 96, "thorough": 2400},
+        shards=16, shrink=False, minimize=mdam_minimize),
     Sub("get_log_likelihood", execute_gll, strategy=lambda tier: gll_cases(tier),
         budget={"quick": 1500, "thorough": 20000}, shards=4, shrink=True),
 ]
